@@ -1786,3 +1786,147 @@ proof fn a6_operator_names_denote_their_operator()
         opk(kw_table()[2]) == Or && kw_table()[2] is Or,
 {
 }
+
+// =========================================================================================
+// A9: the TOP LEVEL of the compiler, parse_switch (parser/src/cfg/switch.rs), up to (not including)
+// its final allocation `Ok(s.a.sref(Action::Switch(..)))` (FRAGMENT, head-until): the parameters are
+// taken three at a time, in order; each triple becomes ONE case, in the written order, whose
+// opcodes are the concatenation of what parse_switch_case_bool emits for the elements of the
+// <key match> list (its contract `compiles` is the stub's - A6/A7 prove the arms against it), whose
+// action is what parse_action returns for the second element and whose break/fallthrough is what
+// the third element says.
+// =========================================================================================
+//@ raw
+/// R32: `ac_params.iter()` (an explicit iterator driven by `.next()`) -> this stub: yields the
+/// elements front to back (ASSUMED contract of slice::Iter::next)
+#[verifier::external_body]
+pub struct VerifParams<'a> { p: core::marker::PhantomData<&'a SExpr> }
+impl<'a> VerifParams<'a> {
+    pub uninterp spec fn rest(&self) -> Seq<SExpr>;
+    #[verifier::external_body]
+    pub fn next(&mut self) -> (r: Option<&'a SExpr>)
+        ensures
+            old(self).rest().len() == 0 ==> r is None && final(self).rest() == old(self).rest(),
+            old(self).rest().len() > 0 ==> r == Some(&old(self).rest()[0]) && final(self).rest() == old(self).rest().drop_first(),
+    { unimplemented!() }
+}
+#[verifier::external_body]
+fn verif_params<'a>(l: &'a [SExpr]) -> (r: VerifParams<'a>) ensures r.rest() == l@ { unimplemented!() }
+/// the action type: opaque here
+#[verifier::external_body]
+pub struct KanataAction { verif_opaque: u8 }
+uninterp spec fn list_of(e: SExpr, s: ParserState) -> Option<Seq<SExpr>>;
+uninterp spec fn action_of(e: SExpr, s: ParserState) -> &'static KanataAction;
+uninterp spec fn bof_word(e: SExpr, s: ParserState) -> Option<VerifBofWord>;
+/// synthetic enum for the third element of a triple (R40: the string patterns `"break"` /
+/// `"fallthrough"` / `_` become its variants, 1:1)
+enum VerifBofWord { Break, Fallthrough, Other }
+/// R39: `key_match.list(s.vars())` -> this call (reading the configuration is outside)
+#[verifier::external_body]
+fn verif_list<'a>(e: &'a SExpr, s: &ParserState) -> (r: Option<&'a [SExpr]>)
+    ensures r is Some <==> list_of(*e, *s) is Some, r matches Some(l) ==> l@ == list_of(*e, *s)->0,
+{ unimplemented!() }
+/// R39: `break_or_fallthrough_expr.atom(s.vars())` followed by the string match -> this call
+#[verifier::external_body]
+fn verif_bof_word(e: &SExpr, s: &ParserState) -> (r: Option<VerifBofWord>)
+    ensures r == bof_word(*e, *s),
+{ unimplemented!() }
+/// ASSUMED contract of parse_action (the whole action parser): some action, a function of the text
+#[verifier::external_body]
+fn parse_action(e: &SExpr, s: &ParserState) -> (r: Result<&'static KanataAction>)
+    ensures r matches Ok(a) ==> a == action_of(*e, *s),
+{ unimplemented!() }
+/// R3: `s.a.sref_vec(ops)` (bump allocation of the finished opcode list) -> this helper: same words
+#[verifier::external_body]
+fn verif_sref_vec(ops: Vec<OpCode>) -> (r: &'static [OpCode]) ensures r@ == ops@ { unimplemented!() }
+/// the recursive compiler as the top level sees it: the contract `compiles` (A6)
+#[verifier::external_body]
+fn parse_switch_case_bool_top(depth: u8, op_expr: &SExpr, ops: &mut Vec<OpCode>, s: &ParserState) -> (r: Result<()>)
+    ensures r is Ok ==> compiles(*op_expr, depth, old(ops)@, final(ops)@) && final(ops)@.len() <= 0x0FFF,
+{ unimplemented!() }
+
+/// what one written triple must become
+spec fn triple_ok(c: (&'static [OpCode], &'static KanataAction, BreakOrFallthrough), km: SExpr, ac: SExpr, bf: SExpr, s: ParserState) -> bool {
+    &&& list_of(km, s) is Some
+    &&& c.0@ == lenc(trees(list_of(km, s)->0), 0)
+    // nesting stays within what the evaluator's operator stack takes (it is entered at depth 1)
+    &&& plwf(trees(list_of(km, s)->0), 8)
+    &&& c.1 == action_of(ac, s)
+    &&& bof_word(bf, s) == Some(VerifBofWord::Break) ==> c.2 is Break
+    &&& bof_word(bf, s) == Some(VerifBofWord::Fallthrough) ==> c.2 is Fallthrough
+    &&& bof_word(bf, s) == Some(VerifBofWord::Break) || bof_word(bf, s) == Some(VerifBofWord::Fallthrough)
+}
+
+//@ fragment parser/src/cfg/switch.rs fn parse_switch head-until `Ok(s.a.sref(Action::Switch(` as parse_switch_cases
+//@@ header
+#[verifier::loop_isolation(false)]
+#[verifier::allow_complex_invariants]
+fn parse_switch_cases(ac_params: &[SExpr], s: &ParserState) -> Result<Vec<(&'static [OpCode], &'static KanataAction, BreakOrFallthrough)>>
+//@@ tail
+    Ok(cases)
+//@@ macro-stmt R13 bail_expr => `return Err(verif_bail());`
+//@@ macro-stmt R13 bail => `return Err(verif_bail());`
+//@@ resub R32 1 /ac_params\.iter\(\)/ => `verif_params(ac_params)`
+//@@ resub R39 1 /key_match\.list\(s\.vars\(\)\)/ => `verif_list(key_match, s)`
+//@@ resub R10 1 /for op in key_match\.iter\(\)/ => `for op in it: key_match.iter()`
+//@@ resub R11 1 /parse_switch_case_bool\(/ => `parse_switch_case_bool_top(`
+//@@ resub R39 1 /let Some\(break_or_fallthrough\) = break_or_fallthrough_expr\.atom\(s\.vars\(\)\) else \{/ => `let Some(break_or_fallthrough) = verif_bof_word(break_or_fallthrough_expr, s) else {`
+//@@ resub R40 1 /"break" =>/ => `VerifBofWord::Break =>`
+//@@ resub R40 1 /"fallthrough" =>/ => `VerifBofWord::Fallthrough =>`
+//@@ resub R40 1 /_ => return Err\(verif_bail\(\)\);?,?/ => `VerifBofWord::Other => { return Err(verif_bail()); }`
+//@@ resub R3 1 /s\.a\.sref_vec\(ops\)/ => `verif_sref_vec(ops)`
+//@@ resub R4 1 /const ERR_STR: &str =\s*"[^"]*";/ => ``
+//@@ ret r
+//@@ spec
+    ensures
+        r matches Ok(cases) ==> {
+            // triples, nothing left over; one case per triple, in the written order
+            &&& ac_params@.len() == 3 * cases@.len()
+            &&& forall|k: int| 0 <= k < cases@.len() ==> triple_ok(#[trigger] cases@[k], ac_params@[3 * k], ac_params@[3 * k + 1], ac_params@[3 * k + 2], *s)
+        },
+//@@ loop 1
+        invariant
+            params.rest() == ac_params@.subrange(3 * cases@.len() as int, ac_params@.len() as int),
+            3 * cases@.len() <= ac_params@.len(),
+            forall|k: int| 0 <= k < cases@.len() ==> triple_ok(#[trigger] cases@[k], ac_params@[3 * k], ac_params@[3 * k + 1], ac_params@[3 * k + 2], *s),
+        ensures
+            ac_params@.len() == 3 * cases@.len(),
+            forall|k: int| 0 <= k < cases@.len() ==> triple_ok(#[trigger] cases@[k], ac_params@[3 * k], ac_params@[3 * k + 1], ac_params@[3 * k + 2], *s),
+        decreases params.rest().len(),
+//@@ before-re 1 /let Some\(key_match\) = verif_list\(/
+    let ghost k = cases@.len() as int;
+    proof {
+        let n = ac_params@.len() as int;
+        assert(ac_params@.subrange(3 * k, n).drop_first() =~= ac_params@.subrange(3 * k + 1, n));
+        assert(ac_params@.subrange(3 * k + 1, n).drop_first() =~= ac_params@.subrange(3 * k + 2, n));
+        assert(ac_params@.subrange(3 * k + 2, n).drop_first() =~= ac_params@.subrange(3 * k + 3, n));
+        assert(*key_match == ac_params@[3 * k] && *action == ac_params@[3 * k + 1] && *break_or_fallthrough_expr == ac_params@[3 * k + 2]);
+    }
+//@@ before-re 1 /for op in it: key_match\.iter\(\)/
+    let ghost km = key_match@;
+//@@ loop 2
+        invariant
+            it.seq().len() == km.len(),
+            forall|j: int| 0 <= j < km.len() ==> *it.seq()[j] == km[j],
+            ops@ == lenc(trees(km.subrange(0, it.index@ as int)), 0),
+            ops@.len() == lsize(trees(km.subrange(0, it.index@ as int))),
+            plwf(trees(km.subrange(0, it.index@ as int)), 8),
+//@@ before-re 1 /parse_switch_case_bool_top\(/
+    let ghost before = ops@;
+//@@ after-re 1 /parse_switch_case_bool_top\([^;]*\)\?;/
+    proof {
+        let pre = km.subrange(0, it.index@ as int + 1);
+        lemma_lenc_snoc(pre, 0);
+        assert(pre.drop_last() =~= km.subrange(0, it.index@ as int));
+        assert(pre.last() == km[it.index@ as int]);
+        lemma_sizes(tree(*op), before.len() as int);
+        lemma_plwf_snoc(pre, 8);
+    }
+//@@ before-re 1 /let action = parse_action\(/
+    proof { assert(km.subrange(0, km.len() as int) =~= km); }
+//@@ after-re 1 /cases\.push\(\([^;]*\)\);/
+    proof {
+        let n = ac_params@.len() as int;
+        assert(cases@.len() == k + 1);
+        assert(params.rest() =~= ac_params@.subrange(3 * (k + 1), n));
+    }
